@@ -51,6 +51,14 @@ def sys2(models):
             "marks": [], "models": sorted(models)}
 
 
+def sys1(models):
+    """one thread only: the pair families involve a single thread, a second thread that never runs
+    would make every trace fail at the end (thread not dead) and hide wrongly accepted events"""
+    s = sys2(models)
+    s["threads"] = s["threads"][:1]
+    return s
+
+
 def pair_family(model, tier):
     """harness-enumerated histories over every pair of a model"""
     mt = emuhist.model_table()[model]
@@ -151,8 +159,8 @@ def main_c08(tier):
                 grp = fam[i:i + 10]
                 keep += grp[:3] + rng.sample(grp[3:], 3)
             fam = keep
-        run_extra(ck, bdir, sys2({"O", mt["char"]}), fam, "C08/pairs/" + model)
-        run_extra(ck, bdir, sys2({"O", mt["char"]}), depth_probes(model), "C08/depth/" + model, view_tail=3)
+        run_extra(ck, bdir, sys1({"O", mt["char"]}), fam, "C08/pairs/" + model)
+        run_extra(ck, bdir, sys1({"O", mt["char"]}), depth_probes(model), "C08/depth/" + model, view_tail=3)
     ck.notes["table_pairs"] = npairs
     ck.phase("pair_families")
     ck.assumptions += ["event tables (spec/data/events.json -> EventData.tla) are committed data transcribed from the "
